@@ -7,7 +7,7 @@ import c08
 PROP = 'C15'
 HEADER = ('From Coq Require Import List NArith Bool.\nFrom FB Require Import Model.Inodes Model.Handles.\n'
           'Import ListNotations.\nLocal Open Scope N_scope.\n')
-USE_KIND = {'getattr': 0, 'fsync': 1, 'fsyncdir': 2, 'flush': 3, 'lseek': 4}
+USE_KIND = {'getattr': 0, 'fsync': 1, 'fsyncdir': 2, 'flush': 3, 'lseek': 4, 'read': 5, 'write': 6, 'fallocate': 7, 'setattr': 8}
 EBADF, ENOSYS = 9, 38
 
 def model_expr(c, recs):
@@ -89,10 +89,13 @@ def predicate(c, recs):
         if o == 'use':
             pair = led.get(r['h']) == r['ino']
             kind = r['kind']
-            uses_table = (kind == 'lseek') or (kind in ('getattr', 'fsync', 'flush') and not no_open) or (kind == 'fsyncdir' and not no_opendir)
-            if kind == 'flush' and no_open: uses_table = False
-            if uses_table and (r['res'] == EBADF) != (not pair) and not (kind == 'getattr' and r['res'] == EBADF):
-                return (k, 'handle-use', '%s with (inode %d, handle %d): errno %d, pair %s by the client' % (kind, r['ino'], r['h'], r['res'], 'held' if pair else 'not held'))
+            if kind == 'lseek': uses_table = True
+            elif kind == 'fsyncdir': uses_table = not no_opendir
+            else: uses_table = not no_open          # getattr/setattr(handle), fsync, flush, read, write, fallocate
+            if uses_table and not pair and r['res'] != EBADF and not (kind == 'flush' and no_open):
+                return (k, 'handle-use', '%s with (inode %d, handle %d), a pair the client does not hold, answered %d instead of EBADF' % (kind, r['ino'], r['h'], r['res']))
+            if uses_table and pair and r['res'] == EBADF and kind in ('lseek', 'fsync', 'fsyncdir', 'flush'):
+                return (k, 'handle-use', '%s with the held pair (inode %d, handle %d) answered EBADF' % (kind, r['ino'], r['h']))
         if o in ('readdir', 'readdirplus') and not no_opendir:
             pair = led.get(r['h']) == r['ino']
             if not pair and r['res'] != EBADF: return (k, 'handle-use', 'readdir with a pair the client does not hold answered %d' % r['res'])
@@ -139,7 +142,8 @@ def run_check(tier, seed):
     for mode, no_open, no_opendir in configs(tier):
         for j in range(per):
             g = P.Gen(random.Random(rnd.getrandbits(48)), no_open, no_opendir, 'c15')
-            lines = g.generate(rnd.randint(10, 36), special=(j % 8 == 5))
+            g.block_base = j * 8; g.blocks = 8          # 9 histories x 8 blocks >= the 66 (handle kind, request, release opcode) combinations
+            lines = g.generate(rnd.randint(6, 18), special=(j % 8 == 5))
             cases.append({'mode': mode, 'no_open': no_open, 'no_opendir': no_opendir, 'lines': lines})
         # targeted: cookie left by a listing must go away with releasedir; destroy + re-init; everything released
         cases.append({'mode': mode, 'no_open': no_open, 'no_opendir': no_opendir, 'lines': [
@@ -172,8 +176,9 @@ def run_check(tier, seed):
             # quiescence: the generator ends these histories by releasing / forgetting everything
             last = recs[-1]
             if last['sizes'][3] == 0 and all(v == 0 for n, v in final_led.items() if n != 1):
-                sz = last['sizes']
-                if sz[0] != 1 or sz[3] != 0 or sz[4] != 0 or last['fds'] != recs[0]['fds']:
+                sz = last['sizes']; sz0 = recs[0]['sizes']
+                maps_differ = c['mode'][1] == 1 and (sz[1] != sz0[1] or sz[2] != sz0[2])    # identity->number maps are kept on purpose in the counter modes
+                if sz[0] != 1 or sz[3] != 0 or sz[4] != 0 or last['fds'] != recs[0]['fds'] or maps_differ:
                     findings.append({'what': 'after releasing every handle and forgetting every inode the server keeps %d inode objects, %d handles, %d position records, %d descriptors (fresh: 1,0,0,%d)' % (sz[0], sz[3], sz[4], last['fds'], recs[0]['fds']),
                                      'sig': {'check': 'quiescence', 'ifh': c['mode'][0]}, 'input': c})
         if len(samples) < 3: samples.append({'cfg': [c['mode'], c['no_open'], c['no_opendir']], 'lines': c['lines'][:6], 'first_records': [{x: r[x] for x in r if x != 'valid'} for r in recs[1:3]]})
